@@ -287,7 +287,7 @@ def c05_jobs(tier, repo):
 
 def c07_jobs(tier, repo):
     _EJ_TIER[0] = tier
-    d = 12 if tier == "quick" else 22
+    d = 12 if tier == "quick" else 30  # thorough: level by level up to the deadline
     jobs = [_ej("C07", d, 1, 1, 600, 1), _ej("C07", d, 3, 2, 600, 1), _ej("C07", d, 700, 1, 600, 1),
             _ej("C07", d, 3, 2, 600, 0), _ej("C07", d, 3, 2, 8, 1), _ej("C07", d, 2, 1, 5, 0)]
     if tier == "thorough":
@@ -645,18 +645,18 @@ def c15_jobs(tier, repo):
     # thorough: the one-group configuration reaches its fixed point (23160 states); the others run to the state cap
     # or the deadline
     cfgs = [("1", "10", 10 if q else 60, ["--malformed", "--dyn=3"]),
-            ("2", "20", 8 if q else 16, ["--dyn=3"]),
-            ("1,1", "10,20", 9 if q else 18, ["--dyn=3"]),
-            ("1,1", "20,10", 9 if q else 18, ["--spare-dup"]),
-            ("1,1", "0,255", 8 if q else 18, []),
-            ("2,1", "10,20", 7 if q else 14, []),
-            ("2,1", "20,10", 7 if q else 14, []),
-            ("1,2", "10,20", 7 if q else 14, ["--spare-dup"]),
-            ("1,1,1", "10,20,30", 6 if q else 12, []),
-            ("1,1,1", "30,10,20", 6 if q else 12, ["--spare-dup"]),
-            ("1,1,1", "20,30,10", 6 if q else 12, []),
-            ("2,1,1", "20,30,10", 5 if q else 10, []),
-            ("1,2,2", "30,20,10", 5 if q else 10, [])]
+            ("2", "20", 8 if q else 24, ["--dyn=3"]),
+            ("1,1", "10,20", 9 if q else 24, ["--dyn=3"]),
+            ("1,1", "20,10", 9 if q else 24, ["--spare-dup"]),
+            ("1,1", "0,255", 8 if q else 24, []),
+            ("2,1", "10,20", 7 if q else 20, []),
+            ("2,1", "20,10", 7 if q else 20, []),
+            ("1,2", "10,20", 7 if q else 20, ["--spare-dup"]),
+            ("1,1,1", "10,20,30", 6 if q else 18, []),
+            ("1,1,1", "30,10,20", 6 if q else 18, ["--spare-dup"]),
+            ("1,1,1", "20,30,10", 6 if q else 18, []),
+            ("2,1,1", "20,30,10", 5 if q else 16, []),
+            ("1,2,2", "30,20,10", 5 if q else 16, [])]
     jobs = [Job("c15_mgr", C15_BUILD, ["--groups=" + g, "--prefs=" + p, "--max-depth=%d" % d]
                 + ([] if q else ["--max-states=3000000"]) + x,
                 "groups[%s] prefs[%s] depth<=%d %s" % (g, p, d, " ".join(x))) for g, p, d, x in cfgs]
